@@ -159,6 +159,8 @@ impl<'a> StateMachine<'a> {
                 }
             }
 
+            self.handle_pending_submodule_short_commit(false)?;
+
             // Every method named handle_* must return std::io::Result<bool>.
             // The bool indicates whether the line has been handled by that
             // method (in which case no subsequent handlers are permitted to
@@ -184,6 +186,7 @@ impl<'a> StateMachine<'a> {
         }
 
         self.handle_unterminated_merge_conflict()?;
+        self.handle_pending_submodule_short_commit(true)?;
         self.handle_pending_line_with_diff_name()?;
         self.painter.paint_buffered_minus_and_plus_lines();
         self.painter.emit()?;
